@@ -41,14 +41,14 @@ Lemma heap_of_cont n c xs :
 Proof. reflexivity. Qed.
 Lemma regs_of_cont n c xs : regs_of n (OCont c xs) = (if registers c then [n] else []) ++ regs_list (n + 1) xs.
 Proof. reflexivity. Qed.
-Lemma wf_at_cont sc vis imm n c xs :
-  wf_at sc vis imm n (OCont c xs) =
+Lemma wf_at_cont s sc vis imm n c xs :
+  wf_gen s sc vis imm n (OCont c xs) =
   let imm' := if is_imm_c c then n :: imm else imm in
   if shape_ok c xs && negb (hazard_pos c false (vals_list (n + 1) xs) (fun k => mem k imm'))
-     && negb (match c with CTuple | CFrozen => existsb (ref_into imm') xs | _ => false end) then
+     && negb (s && match c with CTuple | CFrozen => existsb (ref_into imm') xs | _ => false end) then
     let sc' := sc || is_scope c in
     let vis1 := if sc' && tracked c then n :: vis else vis in
-    match wf_list sc' imm' vis1 (n + 1) xs with
+    match wf_list_gen s sc' imm' vis1 (n + 1) xs with
     | Some v => Some (if is_scope c then vis else v)
     | None => None
     end
@@ -56,8 +56,8 @@ Lemma wf_at_cont sc vis imm n c xs :
 Proof. reflexivity. Qed.
 Lemma slice_list_cons n x r : slice_list n (x :: r) = slice n x ++ slice_list (n + opens x) r.
 Proof. reflexivity. Qed.
-Lemma wf_list_cons sc imm v m x r :
-  wf_list sc imm v m (x :: r) = match wf_at sc v imm m x with Some v' => wf_list sc imm v' (m + opens x) r | None => None end.
+Lemma wf_list_cons s sc imm v m x r :
+  wf_list_gen s sc imm v m (x :: r) = match wf_gen s sc v imm m x with Some v' => wf_list_gen s sc imm v' (m + opens x) r | None => None end.
 Proof. reflexivity. Qed.
 
 (* ------------------------------------------------------------------ frames and states *)
@@ -299,7 +299,7 @@ Qed.
 
 (* ------------------------------------------------------------------ the main induction *)
 Definition PA (t : obj) : Prop :=
-  forall n sc vis imm vis' st, wf_at sc vis imm n t = Some vis' -> okst sc vis imm n st ->
+  forall s n sc vis imm vis' st, wf_gen s sc vis imm n t = Some vis' -> okst sc vis imm n st ->
     run (slice n t) st = Some (adv st [val_of n t] (regs_of n t) (heap_of n t) (opens t))
     /\ (forall k, mem k vis' = true -> mem k vis = true \/ (sc = true /\ mem k (regs_of n t) = true)).
 
@@ -309,19 +309,19 @@ Proof.
   rewrite reg_many_nil, app_nil_r, Z.add_0_r. f_equal. destruct s as [|f r]; [reflexivity|]. destruct f; reflexivity.
 Qed.
 
-Lemma run_list xs : Forall PA xs -> forall n sc vis imm vis' st,
-  wf_list sc imm vis n xs = Some vis' -> okst sc vis imm n st ->
+Lemma run_list xs : Forall PA xs -> forall s n sc vis imm vis' st,
+  wf_list_gen s sc imm vis n xs = Some vis' -> okst sc vis imm n st ->
   run (slice_list n xs) st = Some (adv st (vals_list n xs) (regs_list n xs) (heap_list n xs) (opens_list xs))
   /\ (forall k, mem k vis' = true -> mem k vis = true \/ (sc = true /\ mem k (regs_list n xs) = true)).
 Proof.
-  induction 1 as [|x r Hx Hr IH]; intros n sc vis imm vis' st W O.
+  induction 1 as [|x r Hx Hr IH]; intros s n sc vis imm vis' st W O.
   - cbn in W. inversion W; subst vis'. split; [|auto].
     cbn [slice_list run vals_list regs_list heap_list opens_list]. rewrite (adv_id _ (ok_in _ _ _ _ _ O)). reflexivity.
-  - rewrite wf_list_cons in W. destruct (wf_at sc vis imm n x) as [v1|] eqn:W1; [|discriminate].
-    destruct (Hx n sc vis imm v1 st W1 O) as [R1 S1].
+  - rewrite wf_list_cons in W. destruct (wf_gen s sc vis imm n x) as [v1|] eqn:W1; [|discriminate].
+    destruct (Hx s n sc vis imm v1 st W1 O) as [R1 S1].
     assert (O2 : okst sc v1 imm (n + opens x) (adv st [val_of n x] (regs_of n x) (heap_of n x) (opens x))).
     { apply okst_adv with (vis := vis); [exact O|exact S1]. }
-    destruct (IH (n + opens x) sc v1 imm vis' _ W O2) as [R2 S2].
+    destruct (IH s (n + opens x) sc v1 imm vis' _ W O2) as [R2 S2].
     split.
     + rewrite slice_list_cons, run_app, R1, R2, adv_adv. reflexivity.
     + intros k Hk. change (regs_list n (x :: r)) with (regs_of n x ++ regs_list (n + opens x) r). rewrite mem_app.
@@ -374,15 +374,15 @@ Proof. cbn. rewrite Z.eqb_refl. reflexivity. Qed.
 
 Lemma run_cont c xs : Forall PA xs -> PA (OCont c xs).
 Proof.
-  intros F n sc vis imm vis' st W O.
+  intros F s n sc vis imm vis' st W O.
   rewrite wf_at_cont in W. cbv zeta in W.
   set (imm' := if is_imm_c c then n :: imm else imm) in *.
   set (sc' := sc || is_scope c) in *.
   set (vis1 := if sc' && tracked c then n :: vis else vis) in *.
   destruct (shape_ok c xs && negb (hazard_pos c false (vals_list (n + 1) xs) (fun k => mem k imm'))
-            && negb match c with CTuple | CFrozen => existsb (ref_into imm') xs | _ => false end) eqn:G; [|discriminate].
+            && negb (s && match c with CTuple | CFrozen => existsb (ref_into imm') xs | _ => false end)) eqn:G; [|discriminate].
   apply andb_true_iff in G as [G _]. apply andb_true_iff in G as [S Hz]. apply negb_true_iff in Hz.
-  destruct (wf_list sc' imm' vis1 (n + 1) xs) as [v|] eqn:WL; [|discriminate]. inversion W; subst vis'; clear W.
+  destruct (wf_list_gen s sc' imm' vis1 (n + 1) xs) as [v|] eqn:WL; [|discriminate]. inversion W; subst vis'; clear W.
   destruct O as [Hi Hc Ht Hs Hv Hm].
   set (S' := if registers c then reg_many [n] (s_stack st) else s_stack st).
   set (st1 := {| s_stack := newframe (KC c) n n :: S'; s_inopen := None; s_counter := n + 1; s_heap := s_heap st |}).
@@ -408,7 +408,7 @@ Proof.
         * rewrite (Hv _ Hk). cbn. apply orb_true_r.
       + rewrite (Hv _ Hk). cbn. apply orb_true_r.
     - exact Himm. }
-  destruct (run_list xs F (n + 1) sc' vis1 imm' v st1 WL O1) as [R Sub].
+  destruct (run_list xs F s (n + 1) sc' vis1 imm' v st1 WL O1) as [R Sub].
   split.
   - rewrite slice_cont.
     change (TOpen n :: strs (opentype_of c) ++ slice_list (n + 1) xs ++ [TClose n])
@@ -453,11 +453,11 @@ Qed.
 Theorem run_slice : forall t, PA t.
 Proof.
   apply obj_ind'.
-  - intros t L n sc vis imm vis' st W O. destruct O as [Hi Hc Ht Hs Hv Hm].
+  - intros t L s n sc vis imm vis' st W O. destruct O as [Hi Hc Ht Hs Hv Hm].
     destruct t; try discriminate.
     1-3: (cbn in W; inversion W; subst vis'; split; [apply run_atom; auto|auto]).
     1-4: (cbn in W; inversion W; subst vis'; split; [apply run_boxed; auto|auto]).
-    cbn [wf_at] in W. destruct (sc && mem k vis) eqn:E; [|discriminate]. inversion W; subst vis'.
+    cbn [wf_gen] in W. destruct (sc && mem k vis) eqn:E; [|discriminate]. inversion W; subst vis'.
     apply andb_true_iff in E as [_ E]. split; [apply run_ref; auto|auto].
   - intros c xs F. apply run_cont. exact F.
 Qed.
@@ -484,9 +484,23 @@ Theorem slice_unslice scoped n t : wf_obj scoped n t = true ->
   unslice scoped n (slice n t) = Some (heap_of n t, [val_of n t]).
 Proof.
   unfold wf_obj. destruct (wf_at scoped [] [] n t) as [v|] eqn:W; [|discriminate]. intros _.
-  destruct (run_slice t n scoped [] [] v (init scoped n) W (okst_init scoped n)) as [R _].
+  destruct (run_slice t true n scoped [] [] v (init scoped n) W (okst_init scoped n)) as [R _].
   apply unslice_of_run with (ids := regs_of n t) (k := opens t). exact R.
 Qed.
+
+(* the same for the wide guard (wf_gen false: the strict guard without its last clause): tuples / frozensets that directly
+   hold a reference to an immutable still being built -- cycles through nested tuples -- are handled by this machine too *)
+Theorem slice_unslice_wide scoped n t : wf_obj_wide scoped n t = true ->
+  unslice scoped n (slice n t) = Some (heap_of n t, [val_of n t]).
+Proof.
+  unfold wf_obj_wide, wf_wide. destruct (wf_gen false scoped [] [] n t) as [v|] eqn:W; [|discriminate]. intros _.
+  destruct (run_slice t false n scoped [] [] v (init scoped n) W (okst_init scoped n)) as [R _].
+  apply unslice_of_run with (ids := regs_of n t) (k := opens t). exact R.
+Qed.
+
+Theorem run_slice_wide t n sc vis imm vis' st : wf_wide sc vis imm n t = Some vis' -> okst sc vis imm n st ->
+  run (slice n t) st = Some (adv st [val_of n t] (regs_of n t) (heap_of n t) (opens t)).
+Proof. intros W O. exact (proj1 (run_slice t false n sc vis imm vis' st W O)). Qed.
 
 Lemma Forall_PA xs : Forall PA xs.
 Proof. apply Forall_forall. intros x _. apply run_slice. Qed.
@@ -495,7 +509,14 @@ Proof. apply Forall_forall. intros x _. apply run_slice. Qed.
 Theorem slice_unslice_list scoped n ts v : wf_list scoped [] [] n ts = Some v ->
   unslice scoped n (slice_list n ts) = Some (heap_list n ts, vals_list n ts).
 Proof.
-  intros W. destruct (run_list ts (Forall_PA ts) n scoped [] [] v (init scoped n) W (okst_init scoped n)) as [R _].
+  intros W. destruct (run_list ts (Forall_PA ts) true n scoped [] [] v (init scoped n) W (okst_init scoped n)) as [R _].
+  apply unslice_of_run with (ids := regs_list n ts) (k := opens_list ts). exact R.
+Qed.
+
+Theorem slice_unslice_list_wide scoped n ts v : wf_list_wide scoped [] [] n ts = Some v ->
+  unslice scoped n (slice_list n ts) = Some (heap_list n ts, vals_list n ts).
+Proof.
+  intros W. destruct (run_list ts (Forall_PA ts) false n scoped [] [] v (init scoped n) W (okst_init scoped n)) as [R _].
   apply unslice_of_run with (ids := regs_list n ts) (k := opens_list ts). exact R.
 Qed.
 
@@ -505,6 +526,13 @@ Theorem bytes_roundtrip scoped n t bs : wf_obj scoped n t = true -> forallb wf_t
   exists toks, decode bs = (toks, EndClean) /\ unslice scoped n toks = Some (heap_of n t, [val_of n t]).
 Proof.
   intros W T E. exists (slice n t). split; [apply stream_roundtrip; assumption|apply slice_unslice; exact W].
+Qed.
+
+Theorem bytes_roundtrip_wide scoped n t bs : wf_obj_wide scoped n t = true -> forallb wf_token (slice n t) = true ->
+  encode_stream (slice n t) = Ok bs ->
+  exists toks, decode bs = (toks, EndClean) /\ unslice scoped n toks = Some (heap_of n t, [val_of n t]).
+Proof.
+  intros W T E. exists (slice n t). split; [apply stream_roundtrip; assumption|apply slice_unslice_wide; exact W].
 Qed.
 
 (* ------------------------------------------------------------------ Stage 4: scope isolation *)
@@ -520,7 +548,7 @@ Definition refs_ge_list (lo : Z) := fix go (l : list obj) : bool := match l with
 Definition all_ge (lo : Z) (l : list Z) : Prop := forall k, mem k l = true -> lo <= k.
 
 Definition PR (t : obj) : Prop :=
-  forall lo sc vis imm n vis', wf_at sc vis imm n t = Some vis' -> all_ge lo vis -> lo <= n ->
+  forall s lo sc vis imm n vis', wf_gen s sc vis imm n t = Some vis' -> all_ge lo vis -> lo <= n ->
     refs_ge lo t = true /\ all_ge lo vis'.
 
 Lemma opens_nonneg : forall t, 0 <= opens t.
@@ -531,39 +559,39 @@ Proof.
     induction F as [|x r Hx _ IH]; cbn; lia.
 Qed.
 
-Lemma refs_list xs : Forall PR xs -> forall lo sc vis imm n vis',
-  wf_list sc imm vis n xs = Some vis' -> all_ge lo vis -> lo <= n -> refs_ge_list lo xs = true /\ all_ge lo vis'.
+Lemma refs_list xs : Forall PR xs -> forall s lo sc vis imm n vis',
+  wf_list_gen s sc imm vis n xs = Some vis' -> all_ge lo vis -> lo <= n -> refs_ge_list lo xs = true /\ all_ge lo vis'.
 Proof.
-  induction 1 as [|x r Hx _ IH]; intros lo sc vis imm n vis' W A L.
+  induction 1 as [|x r Hx _ IH]; intros s lo sc vis imm n vis' W A L.
   - cbn in W. inversion W; subst. split; [reflexivity|exact A].
-  - rewrite wf_list_cons in W. destruct (wf_at sc vis imm n x) as [v1|] eqn:W1; [|discriminate].
-    destruct (Hx lo sc vis imm n v1 W1 A L) as [R1 A1].
+  - rewrite wf_list_cons in W. destruct (wf_gen s sc vis imm n x) as [v1|] eqn:W1; [|discriminate].
+    destruct (Hx s lo sc vis imm n v1 W1 A L) as [R1 A1].
     pose proof (opens_nonneg x).
-    destruct (IH lo sc v1 imm (n + opens x) vis' W A1 ltac:(lia)) as [R2 A2].
+    destruct (IH s lo sc v1 imm (n + opens x) vis' W A1 ltac:(lia)) as [R2 A2].
     split; [cbn [refs_ge_list]; rewrite R1; exact R2|exact A2].
 Qed.
 
 Theorem refs_in_range : forall t, PR t.
 Proof.
   apply obj_ind'.
-  - intros t L lo sc vis imm n vis' W A Ln. destruct t; try discriminate; try (cbn in W; inversion W; subst; split; [reflexivity|exact A]).
-    cbn [wf_at] in W. destruct (sc && mem k vis) eqn:E; [|discriminate]. inversion W; subst.
+  - intros t L s lo sc vis imm n vis' W A Ln. destruct t; try discriminate; try (cbn in W; inversion W; subst; split; [reflexivity|exact A]).
+    cbn [wf_gen] in W. destruct (sc && mem k vis) eqn:E; [|discriminate]. inversion W; subst.
     apply andb_true_iff in E as [_ E]. split; [cbn; apply Z.leb_le; apply A; exact E|exact A].
-  - intros c xs F lo sc vis imm n vis' W A Ln. rewrite wf_at_cont in W. cbv zeta in W.
+  - intros c xs F s lo sc vis imm n vis' W A Ln. rewrite wf_at_cont in W. cbv zeta in W.
     match type of W with (if ?b then _ else _) = _ => destruct b; [|discriminate] end.
     match type of W with match ?w with _ => _ end = _ => destruct w as [v|] eqn:WL; [|discriminate] end.
     inversion W; subst vis'; clear W.
     assert (A1 : all_ge lo (if (sc || is_scope c) && tracked c then n :: vis else vis)).
     { destruct ((sc || is_scope c) && tracked c); [|exact A]. intros k H. cbn [mem] in H.
       apply orb_true_iff in H as [H|H]; [apply Z.eqb_eq in H; lia|apply A; exact H]. }
-    destruct (refs_list xs F lo _ _ _ (n + 1) v WL A1 ltac:(lia)) as [R A2].
+    destruct (refs_list xs F s lo _ _ _ (n + 1) v WL A1 ltac:(lia)) as [R A2].
     split; [exact R|destruct (is_scope c); assumption].
 Qed.
 
 (* a scoped sequence that the sender can produce at OPEN number n when nothing is visible from outside
    (successive calls on a Broker: the root slicer keeps no table) refers only to objects opened inside itself *)
-Theorem scope_refs_are_local nm xs imm n vis' :
-  wf_at false [] imm n (OCont (CScope nm) xs) = Some vis' -> refs_ge_list (n + 1) xs = true /\ vis' = [].
+Theorem scope_refs_are_local s nm xs imm n vis' :
+  wf_gen s false [] imm n (OCont (CScope nm) xs) = Some vis' -> refs_ge_list (n + 1) xs = true /\ vis' = [].
 Proof.
   intros W. split.
   - rewrite wf_at_cont in W. cbv zeta in W.
@@ -571,7 +599,7 @@ Proof.
     match type of W with match ?w with _ => _ end = _ => destruct w as [v|] eqn:WL; [|discriminate] end.
     cbn [is_scope tracked andb orb] in WL. try rewrite andb_false_r in WL.
     assert (FP : Forall PR xs) by (apply Forall_forall; intros x _; apply refs_in_range).
-    destruct (refs_list xs FP (n + 1) _ _ _ (n + 1) v WL) as [R _];
+    destruct (refs_list xs FP s (n + 1) _ _ _ (n + 1) v WL) as [R _];
       [intros k H; discriminate|lia|exact R].
   - rewrite wf_at_cont in W. cbv zeta in W.
     match type of W with (if ?b then _ else _) = _ => destruct b; [|discriminate] end.
@@ -581,13 +609,13 @@ Qed.
 
 (* the receiver: once a call has been closed on a connection whose root keeps no table, no number resolves any more:
    a reference arriving in the next call to anything outside that call is a dangling reference, whatever the number *)
-Theorem scope_isolation_receiver nm1 xs1 nm2 n k v :
-  wf_list false [] [] n [OCont (CScope nm1) xs1] = Some v ->
+Theorem scope_isolation_receiver s nm1 xs1 nm2 n k v :
+  wf_list_gen s false [] [] n [OCont (CScope nm1) xs1] = Some v ->
   shape_ok (CScope nm2) [] = true ->
   unslice false n (slice_list n [OCont (CScope nm1) xs1; OCont (CScope nm2) [ORef k]]) = None.
 Proof.
   intros W S2.
-  destruct (run_list _ (Forall_PA _) n false [] [] v (init false n) W (okst_init false n)) as [R _].
+  destruct (run_list _ (Forall_PA _) s n false [] [] v (init false n) W (okst_init false n)) as [R _].
   unfold unslice. rewrite slice_list_cons, run_app.
   change (slice_list n [OCont (CScope nm1) xs1]) with (slice n (OCont (CScope nm1) xs1) ++ []) in R. rewrite app_nil_r in R.
   rewrite R. cbn [slice_list]. rewrite app_nil_r, slice_cont.
@@ -655,6 +683,12 @@ Theorem roundtrip_any_vocab scoped n t tbl : wf_obj scoped n t = true -> NoDup (
   exists toks, devocab tbl (envocab tbl (slice n t)) = Some toks /\ unslice scoped n toks = Some (heap_of n t, [val_of n t]).
 Proof.
   intros W ND. exists (slice n t). split; [apply vocab_transparent; [exact ND|apply slice_no_vocab]|apply slice_unslice; exact W].
+Qed.
+
+Theorem roundtrip_any_vocab_wide scoped n t tbl : wf_obj_wide scoped n t = true -> NoDup (map snd tbl) ->
+  exists toks, devocab tbl (envocab tbl (slice n t)) = Some toks /\ unslice scoped n toks = Some (heap_of n t, [val_of n t]).
+Proof.
+  intros W ND. exists (slice n t). split; [apply vocab_transparent; [exact ND|apply slice_no_vocab]|apply slice_unslice_wide; exact W].
 Qed.
 
 (* the in-band table replacement is consumed by the receiver machine at top level and leaves no object behind *)
